@@ -110,9 +110,22 @@ def main():
         meta["caught_by"] = sorted({k.split("@")[0] for k, v in meta["checks"].items() if v["caught"]})
     finally:
         drop(mut)
-    meta["needs"] = ""
     d = os.path.join(VERIF, "seeded", a.name)
     os.makedirs(d, exist_ok=True)
+    old = {}
+    if os.path.exists(os.path.join(d, "meta.json")):
+        old = json.load(open(os.path.join(d, "meta.json")))
+    for k in ("summary", "needs", "breaks_property", "history", "first_evaluation"):
+        if k in old:
+            meta[k] = old[k]
+    if a.no_tests and "suite_ok" in old:
+        meta["suite_ok"] = old["suite_ok"]
+        meta["suite_stable_tests_failing"] = old.get("suite_stable_tests_failing", [])
+    if old and not old.get("caught_by") and "first_evaluation" not in meta:
+        meta["first_evaluation"] = dict(evaluated_at=old.get("evaluated_at"), repo_head=old.get("repo_head"), caught_by=[], checks=old.get("checks"))
+    if meta.get("first_evaluation") and meta["caught_by"]:
+        meta["history"] = ("MISSED by the quick tier at first evaluation; the generator/oracle was strengthened (DESIGN.md 10.4) "
+                           "and the change is now caught")
     shutil.copy(patch, os.path.join(d, "patch.diff"))
     shutil.copy(demo, os.path.join(d, "demo.py"))
     if a.notes and os.path.exists(a.notes):
